@@ -30,6 +30,9 @@ type Config struct {
 	// 4 "x-" through goldmark.WithRendererOptions(WithFootnoteIDPrefix) (reaches the renderer by option name,
 	// after it was constructed); 5 a prefix *function* whose value depends on the document being rendered
 	FnPrefix int
+	// TypoOff: typographer substitutions switched off with a nil replacement (the documented way):
+	// 0 none, 1 LeftDoubleQuote, 2 RightDoubleQuote, 3 the single quotes and the apostrophe, 4 all of them
+	TypoOff int
 }
 
 var fnPrefixes = []string{"", "x-", "doc-", "article12-", "x-", ""}
@@ -59,6 +62,9 @@ func (c Config) String() string {
 	add(c.DefList, "deflist")
 	add(c.Footnote, "footnote")
 	add(c.Typo, "typo")
+	if c.Typo && c.TypoOff != 0 {
+		p = append(p, "tyo"+string(rune('0'+c.TypoOff)))
+	}
 	if c.CJK != 0 {
 		p = append(p, "cjk"+string(rune('0'+c.CJK)))
 	}
@@ -116,6 +122,9 @@ func ParseConfig(s string) Config {
 			}
 			if strings.HasPrefix(tok, "ta") && len(tok) == 3 {
 				c.TableAlign = int(tok[2] - '0')
+			}
+			if strings.HasPrefix(tok, "tyo") && len(tok) == 4 {
+				c.TypoOff = int(tok[3]-'0') % 5
 			}
 			if strings.HasPrefix(tok, "fnp") && len(tok) == 4 {
 				c.FnPrefix = int(tok[3]-'0') % len(fnPrefixes)
@@ -183,7 +192,20 @@ func (c Config) Extensions() []goldmark.Extender {
 		}
 	}
 	if c.Typo {
-		exts = append(exts, extension.Typographer)
+		off := map[int][]extension.TypographicPunctuation{
+			1: {extension.LeftDoubleQuote}, 2: {extension.RightDoubleQuote},
+			3: {extension.LeftSingleQuote, extension.RightSingleQuote, extension.Apostrophe},
+			4: {extension.LeftSingleQuote, extension.RightSingleQuote, extension.LeftDoubleQuote, extension.RightDoubleQuote, extension.EnDash, extension.EmDash, extension.Ellipsis, extension.LeftAngleQuote, extension.RightAngleQuote, extension.Apostrophe},
+		}[c.TypoOff]
+		if len(off) > 0 {
+			subs := map[extension.TypographicPunctuation][]byte{}
+			for _, k := range off {
+				subs[k] = nil
+			}
+			exts = append(exts, extension.NewTypographer(extension.WithTypographicSubstitutions(subs)))
+		} else {
+			exts = append(exts, extension.Typographer)
+		}
 	}
 	switch c.CJK {
 	case 1:
@@ -274,6 +296,8 @@ var Representative = []Config{
 	{Table: true, Strike: true, Task: true, Footnote: true, XHTML: true},
 	{GFM: true, Footnote: true, FnPrefix: 2, Typo: true},
 	{Table: true, Footnote: true, FnPrefix: 5, XHTML: true},
+	{Typo: true, TypoOff: 2, Linkify: true},
+	{Typo: true, TypoOff: 1, GFM: true, XHTML: true},
 	{GFM: true, Footnote: true, FnPrefix: 4, DefList: true},
 }
 
@@ -311,6 +335,9 @@ func DrawConfig(t *rapid.T, o ConfigOpts) Config {
 		if b(20) && b(21) {
 			c.FnPrefix = 1 + int((bits>>22)%5)
 		}
+		if b(25) && b(26) {
+			c.TypoOff = 1 + int((bits>>27)%4)
+		}
 	}
 	if o.SafeOnly {
 		c.Unsafe = false
@@ -329,6 +356,9 @@ func DrawConfig(t *rapid.T, o ConfigOpts) Config {
 	}
 	if !c.Footnote {
 		c.FnPrefix = 0
+	}
+	if !c.Typo {
+		c.TypoOff = 0
 	}
 	if !c.HasTable() {
 		c.TableAlign = 0
